@@ -271,6 +271,29 @@ theorem wcsncat_s_overlap (cfg : Cfg) (dest dmax src slen dl : Nat) (st : St)
   rw [wcsncat_s_eq cfg dest dmax src slen hle hslenle (by omega)]
   exact strncatG_overlap _ cfg dest dmax src slen dl st hall hd hs hpos hle hslen hslenle hrw hdl hdnz hdnul hov
 
+/-- **strcat_s detects every overlap** (unbounded: the characters appended are the whole source string) -/
+theorem strcat_s_overlap (cfg : Cfg) (dest dmax src dl : Nat) (st : St)
+    (hall : ∀ a, st.mapped a = true ∧ st.rd a = true)
+    (hd : dest ≠ 0) (hs : src ≠ 0) (hpos : 0 < dmax) (hle : dmax ≤ RSIZE_MAX_STR) (hrw : RW st dest dmax)
+    (hdl : dl < dmax) (hdnz : ∀ j, j < dl → st.data (dest+j) ≠ 0) (hdnul : st.data (dest+dl) = 0)
+    (hov : (dest < src ∧ src ≤ dest + dl) ∨
+      (dest + dl < src ∧ src < dest + dmax ∧ ∀ j, j < src - (dest + dl) → st.data (src + j) ≠ 0) ∨
+      (src ≤ dest ∧ dest - src < dmax - dl ∧ ∀ j, j < dest - src → st.data (src + j) ≠ 0)) :
+    ∃ st', exec (strcat_s cfg dest dmax src none) st = .ok (ESOVRLP, st') ∧ OvrlpPost cfg dest dmax st st' :=
+  strcatG_overlap _ cfg dest dmax src dl st hall hd hs hpos hle hrw hdl hdnz hdnul hov
+
+/-- **wcscat_s detects every overlap** -/
+theorem wcscat_s_overlap (cfg : Cfg) (dest dmax src dl : Nat) (st : St)
+    (hall : ∀ a, st.mapped a = true ∧ st.rd a = true)
+    (hd : dest ≠ 0) (hs : src ≠ 0) (hpos : 0 < dmax) (hle : dmax ≤ RSIZE_MAX_WSTR) (hrw : RW st dest dmax)
+    (hdl : dl < dmax) (hdnz : ∀ j, j < dl → st.data (dest+j) ≠ 0) (hdnul : st.data (dest+dl) = 0)
+    (hov : (dest < src ∧ src ≤ dest + dl) ∨
+      (dest + dl < src ∧ src < dest + dmax ∧ ∀ j, j < src - (dest + dl) → st.data (src + j) ≠ 0) ∨
+      (src ≤ dest ∧ dest - src < dmax - dl ∧ ∀ j, j < dest - src → st.data (src + j) ≠ 0)) :
+    ∃ st', exec (wcscat_s cfg dest dmax src none) st = .ok (ESOVRLP, st') ∧ OvrlpPost cfg dest dmax st st' := by
+  rw [wcscat_s_eq]
+  exact strcatG_overlap _ cfg dest dmax src dl st hall hd hs hpos hle hrw hdl hdnz hdnul hov
+
 /-- non-vacuity: `strncat_s(a, 8, a+1, 3)` with `a = "xyz"` (dl = 3): src inside the dest string -/
 example : ∃ st : St, (∀ a, st.mapped a = true ∧ st.rd a = true) ∧ RW st 100 8 ∧
     (∀ j, j < 3 → st.data (100 + j) ≠ 0) ∧ st.data (100 + 3) = 0 ∧ ((100 : Nat) < 101 ∧ 101 ≤ 100 + 3) :=
